@@ -123,9 +123,21 @@ theorem getoptPath_valid (c : Cfg) (name : Bytes) (r : OptRef) (h : (getoptPath 
   unfold getoptPath getoptSecidx at h
   split at h
   · simp at h
-  · have : (secidxLoop false (name.length + 1) c [] none (-1) name).ref = some r := by
-      split at h <;> exact h
-    exact secidx_valid c _ c [] none (-1) name r rfl this
+  · cases hk : keyFirst c name false with
+    | some i =>
+      simp only [hk, Option.some.injEq] at h
+      subst h
+      have hl : getoptLeaf c name = some i := by
+        unfold keyFirst at hk
+        split at hk
+        · exact hk
+        · cases hk
+      simpa [Cfg.getOpt, getOptAt] using getoptLeaf_valid c name i hl
+    | none =>
+      simp only [hk] at h
+      have : (secidxLoop false (name.length + 1) c [] none (-1) name).ref = some r := by
+        split at h <;> exact h
+      exact secidx_valid c _ c [] none (-1) name r rfl this
 
 /-! ### an unresolved name is reported -/
 
@@ -239,24 +251,31 @@ theorem getoptPath_resolved_quiet (c : Cfg) (name : Bytes) (r : OptRef) (h : (ge
   by_cases h1 : name.isEmpty = true
   · simp [h1]
   · simp only [h1, Bool.false_eq_true, if_false] at h ⊢
-    split
-    · rfl
-    · rename_i h2
-      simp only [h2, Bool.false_eq_true, if_false] at h
-      exact secidx_resolved_quiet _ c [] none (-1) name r h
+    cases hk : keyFirst c name false with
+    | some i => rfl
+    | none =>
+      simp only [hk] at h ⊢
+      split
+      · rfl
+      · rename_i h2
+        simp only [h2, Bool.false_eq_true, if_false] at h
+        exact secidx_resolved_quiet _ c [] none (-1) name r h
 
 /-- in a context that skips unknown options, and in a free-form one, the resolver says nothing -/
 theorem getoptPath_quiet' (c : Cfg) (name : Bytes) (h : c.flags.ignoreUnknown = true ∨ c.flags.keystrval = true) : (getoptPath c name).diags = [] := by
   unfold getoptPath getoptSecidx
   split
   · rfl
-  · rcases h with h | h <;> simp [h]
+  · split
+    · rfl
+    · rcases h with h | h <;> simp [h]
 
 theorem getoptPath_unresolved_diag (c : Cfg) (name : Bytes) (hne : name ≠ []) (hi : c.flags.ignoreUnknown = false) (hk : c.flags.keystrval = false)
     (h : (getoptPath c name).ref = none) : (getoptPath c name).diags ≠ [] := by
   unfold getoptPath getoptSecidx at h ⊢
   have hne' : name.isEmpty = false := by cases name <;> simp_all
-  simp only [hne', Bool.false_eq_true, if_false, hi] at h ⊢
+  have hkf : keyFirst c name false = none := by simp [keyFirst, hk]
+  simp only [hne', Bool.false_eq_true, if_false, hi, hkf] at h ⊢
   simp only [hk, Bool.and_false, Bool.or_false, Bool.false_eq_true, if_false] at h ⊢
   exact secidx_unresolved_diag _ c [] none (-1) name (by omega) h
 
